@@ -110,6 +110,31 @@ func (n *Node) Mine(o MineOpts) (*lpb.InternalBlock, error) {
 	return keep, nil
 }
 
+// MineReal lets the node's own block producer (kernel/engines/xuperos/miner) run one round: the real
+// packBlock (size budget, pool order), confirmBlockForMiner and the broadcast (a background task).
+// It returns a copy of the new ledger tip.
+func (n *Node) MineReal() (*lpb.InternalBlock, error) {
+	before := append([]byte{}, n.L.GetMeta().TipBlockid...)
+	if err := n.Chain.XsimMiner().XsimMining(n.BaseCtx()); err != nil {
+		// the ledger may already have accepted the block (the state machine or the consensus failed later)
+		if tip := n.L.GetMeta().TipBlockid; !bytes.Equal(tip, before) {
+			if blk, qerr := n.L.QueryBlock(tip); qerr == nil {
+				return proto.Clone(blk).(*lpb.InternalBlock), err
+			}
+		}
+		return nil, err
+	}
+	tip := n.L.GetMeta().TipBlockid
+	if bytes.Equal(tip, before) {
+		return nil, fmt.Errorf("xsim: the miner reported success but the ledger tip did not move")
+	}
+	blk, err := n.L.QueryBlock(tip)
+	if err != nil {
+		return nil, err
+	}
+	return proto.Clone(blk).(*lpb.InternalBlock), nil
+}
+
 // CloneBlock returns a deep copy as a receiver would decode it from the wire.
 func CloneBlock(b *lpb.InternalBlock) *lpb.InternalBlock {
 	c := proto.Clone(b).(*lpb.InternalBlock)
